@@ -282,7 +282,9 @@ func (la *LeapArray) ValuesConditional(now uint64, predicate base.TimePredicate)
 func (la *LeapArray) isBucketDeprecated(now uint64, ww *BucketWrap) bool {
 	vhook.Yield(106)
 	ws := atomic.LoadUint64(&ww.BucketStart)
-	return (now - ws) > uint64(la.intervalInMs)
+	// A bucket that started exactly one interval ago covers [now-interval, now-interval+bucketLength),
+	// which lies entirely outside the window ending at the current bucket, so it is expired too.
+	return (now - ws) >= uint64(la.intervalInMs)
 }
 
 // BucketGenerator represents the "generic" interface for generating and refreshing buckets.
